@@ -123,6 +123,9 @@ fn run_seq(regime: Regime, size: u16, chunk: usize, flen: usize, ops: &[Op], dir
     let mut w = Window::new(size, chunk, file);
     let mut r = Ref { q: VecDeque::new(), size: size as usize, chunk, file: data.clone(), cursor: 0, end_seen: false, sink: vec![], add_counter: 0 };
     for (i, op) in ops.iter().enumerate() {
+        if regime == Regime::Source && *op == Op::Empty && !r.q.is_empty() {
+            continue; // would try to write to a read-only file: not part of this regime
+        }
         let before: Vec<Vec<u8>> = if regime == Regime::Mixed { w.get_elements().iter().cloned().collect() } else { vec![] };
         let add_n = r.add_counter;
         let res = catch_unwind(AssertUnwindSafe(|| match op {
@@ -238,6 +241,7 @@ fn ops_for(regime: Regime, size: u16, chunk: usize) -> Vec<Op> {
             }
             v.push(Op::Add(chunk));
             v.push(Op::Add(0));
+            v.push(Op::Empty); // applied only while the buffer is empty (nothing to write to the read-only file)
         }
         Regime::Sink => {
             v.push(Op::Add(chunk));
